@@ -203,6 +203,32 @@ def handle (j : Json) : Except String Json := do
       pure <| Json.mkObj [("total", Json.num r.total), ("p", Json.num r.pSize), ("a", Json.num r.aSize),
         ("rows", Json.arr (r.rows.map fun w => Json.arr #[Json.str w.name, Json.num w.parameters,
                                               Json.num w.activations, Json.num w.total]).toArray)]
+  | "szhist" =>
+    -- a history of get_reference(model) / get_trial(model) / stress on ONE ForgivingFactorBits object, the
+    -- models given as the layer records the size model reads (`getReferenceM` / `getTrialM` / `runM`)
+    let c : SzCfg := { inputBits := ← getInt j "input_bits", outputBits := ← getInt j "output_bits",
+                       refBits := ← getInt j "ref_bits",
+                       config := ← pairList strList (← j.getObjVal? "config") }
+    let stress ← getRat j "stress"
+    let evs ← (← j.getObjVal? "events").getArr?
+    let events ← evs.toList.mapM fun e => do
+      match e with
+      | .arr #[.str "ref", .arr ls] => pure (MEv.ref (← ls.toList.mapM szLayerOfJson))
+      | .arr #[.str "trial", .arr ls] => pure (MEv.trial (← ls.toList.mapM szLayerOfJson))
+      | .arr #[.str "stress", x] => pure (MEv.setStress (← ratOfJson x))
+      | _ => throw "bad event"
+    let optRat : Option Rat → Json := fun o => match o with | none => Json.null | some q => ratToJson q
+    let rowsJson : Option SizeOut → Json := fun o => match o with
+      | none => Json.null
+      | some r => Json.mkObj [("p", Json.num r.pSize), ("a", Json.num r.aSize),
+          ("rows", Json.arr (r.rows.map fun w => Json.arr #[Json.str w.name, Json.num w.parameters,
+                                                Json.num w.activations, Json.num w.total]).toArray)]
+    let o : FFBM Rat := { cfg := c, base := { stress := stress } }
+    let out := runM (fun (z : Int) => (z : Rat)) (fun x y => rnd64 (x * y)) o events
+    pure <| Json.mkObj [("steps", Json.arr (out.map fun r =>
+      Json.mkObj [("ret", optRat r.1), ("reference_size", optRat r.2.base.referenceSize),
+                  ("trial_size", optRat r.2.base.trialSize),
+                  ("reference_stats", rowsJson r.2.refStats), ("trial_stats", rowsJson r.2.trialStats)]).toArray)]
   | _ => throw s!"unknown op {op}"
 
 def main : IO Unit := lineLoop handle
